@@ -67,7 +67,7 @@ class PropCheck:
         return None
 
     search_seeds = 2           # extra seeds tried by the default search
-    search_tier = "thorough"
+    search_tier = "quick"
 
     def search(self, ctx, broken):
         """Search for a concrete failing input when an obligation or the correspondence broke: evaluate the
